@@ -64,23 +64,24 @@ CLAIMED = {
 
 # rules added by the later seeding rounds (appended to the technique text)
 EXTRA = {
- 'C15': '; truthiness decisions on nodes when parsed objects can be falsy',
+ 'C01': '; spelling pairs of | (compound operands stay whole) shared with C19',
+ 'C15': '; truthiness decisions on nodes when parsed objects can be falsy; the visited set belongs to one walk',
  'C14': '; copy-protocol hooks must carry _metadata',
  'C11': '; def-use rule: the description text reaches the metagrammar parser unmodified',
  'C02': '; evaluation of the emitted postfix reduction test for every stack depth / row relation; OperatorTable.create partially evaluated on every sequence of row kinds (levels strictly increase); forms of one bucket (operand + mixfix forms, rows of one kind) combined with Longest in row order',
  'C03': '; atomicity rule on compound bound texts; Choice/Longest/Opt configurations with a consuming alternative (an incomplete list leaves no trace)',
- 'C05': '; marker-based free-variable protocol on skeletons; E1 rules on the List configurations with name bounds; inline Python evaluated in place (route inline-python); memo per call; Let binds only on success of the bound expression; entry-closure capture rule',
+ 'C05': '; marker-based free-variable protocol on skeletons; E1 rules on the List configurations with name bounds; inline Python evaluated in place (route inline-python); memo per call; Let binds only on success of the bound expression; entry-closure capture rule; call-object key covers func, args and kwargs',
  'C06': '; wrapper-owner rule; parameter-order rule; keyword arguments travel by name in call objects of named grammars; entry-closure capture rule (class parameters captured outside the generated entry lambda)',
  'C07': '; every path that starts a generator has consulted the memo; driver representation with the active frame outside the stack',
- 'C08': '; driver coordinates not rebound; memo per call; the value leaves _finalize_parse_info only after the conversion walk; conversion walk rules (identity de-duplication, every object once); entry-closure capture rule',
- 'C09': '; position functions read no module-level container and carry no decorator; last_position built from the unmoved end position',
- 'C10': '; position functions read no module-level container and carry no decorator; second line-map representation (index of the last line feed); span start captured before anything moves the position in every emitted class function',
- 'C13': '; import-shadow rule; synthetic ignore rule reaches named patterns by late-bound reference (anonymous ones may be matched in place); only explicit super.R reads the lexical parent context',
+ 'C08': '; driver coordinates not rebound; memo per call; the value leaves _finalize_parse_info only after the conversion walk; conversion walk rules (identity de-duplication, every object once); entry-closure capture rule; status register holds booleans only (E1 protocol rule on every expression class)',
+ 'C09': '; position functions read no module-level container and carry no decorator; last_position built from the unmoved end position; failure exits of the lookaheads leave the start position',
+ 'C10': '; position functions read no module-level container and carry no decorator; second line-map representation (index of the last line feed); span start captured before anything moves the position in every emitted class function; every match builds a fresh instance to carry its span',
+ 'C13': '; import-shadow rule; synthetic ignore rule reaches named patterns by late-bound reference (anonymous ones may be matched in place); only explicit super.R reads the lexical parent context; rule functions store nothing computed from their context at module level',
  'C16': '; identity-keyed table rule, single-pass rule, object-returned-without-callbacks rule, metadata goes onto a copy of the callback result (never into the object a callback returned); only lists are containers; truthiness rule',
- 'C17': '; binders and never-failing nodes at every depth of the split threshold',
+ 'C17': '; binders and never-failing nodes at every depth of the split threshold; a driver step never walks its own stack',
  'C18': '; namespace mutation rule (vars()/globals()/__dict__); inline Python of the grammar evaluated inside rule functions, never hoisted to module level (route inline-python); stores into class objects (cls / type(x) / x.__class__)',
  'C19': '; zero and name bounds in repeat mapping; compound operands of | against Choice(compound, b); bound atomicity',
- 'C20': '; keyword-prefix rule on the metagrammar; derived-namespace rule on invented module-level names; attribute namespace rule (ParsedObject and generated class bodies define no public name next to user members)',
+ 'C20': '; keyword-prefix rule on the metagrammar; derived-namespace rule on invented module-level names; attribute namespace rule (ParsedObject and generated class bodies define no public name next to user members); no builtins/keyword table consulted by the generator',
 }
 NA = {
  'C12': 'Bootstrap fixed point compares outputs of executing the generator across generations; any static surrogate is either a text comparison that fires on harmless edits or a re-execution of the generator (DESIGN.md section 6).',
